@@ -20,8 +20,11 @@ Alphabet == JsonDeserialize(IOEnv.ND_ALPHABET)
 Handler  == "ND_LEVEL" \in DOMAIN IOEnv /\ IOEnv.ND_LEVEL = "handler"
 FeeLimit == IF "ND_FEE_LIMIT" \in DOMAIN IOEnv
             THEN CHOOSE n \in 0..16 : ToString(n) = IOEnv.ND_FEE_LIMIT ELSE 0
+MaxInvoices == IF "ND_MAX_INVOICES" \in DOMAIN IOEnv
+               THEN CHOOSE n \in 0..16 : ToString(n) = IOEnv.ND_MAX_INVOICES ELSE 0
 K == [atomicAllowlist |-> IOEnv.ND_ATOMIC_ALLOWLIST = "true",
       feeLimit |-> FeeLimit,
+      maxInvoices |-> MaxInvoices,
       withdrawCountsBeforeSign |-> IF "ND_COUNTS_BEFORE_SIGN" \in DOMAIN IOEnv
                                    THEN IOEnv.ND_COUNTS_BEFORE_SIGN = "true" ELSE TRUE,
       approve |-> IF "ND_APPROVE" \in DOMAIN IOEnv THEN IOEnv.ND_APPROVE = "true" ELSE TRUE]
